@@ -60,4 +60,5 @@ HANDLER_PREFIXES = ("kmip.services.server.engine.KmipEngine._process_",
                     "kmip.services.server.session.KmipSession.",
                     "kmip.services.kmip_protocol.KMIPProtocol.",
                     "kmip.services.server.auth.",
-                    "kmip.pie.factory.")
+                    "kmip.pie.factory.",
+                    "kmip.core.objects.KeyValue.")
